@@ -28,6 +28,7 @@ REPS = {
     "c3": ["中", "€", "한"],                                             # 中 € 한          (3 bytes)
     "g4": ["\U0001F600", "\U0001D11E", "\U00010877"],                                 # 😀 𝄞 𐡷          (4 bytes)
     "sp": [" "], "tab": ["\t"], "dot": ["."], "star": ["*"], "comma": [","], "eq": ["="],
+    "bel": ["\a"], "bs": ["\b"], "ff": ["\f"], "lf": ["\n"], "cr": ["\r"], "vt": ["\v"], "bsl": ["\\"], "dq": ['"'],
 }
 for _d in "123456789":
     REPS[_d] = [_d]
@@ -56,7 +57,7 @@ SHOW = ('r = %s; print NR . "|" . typeof(r) . "|" . '
         '(is_error(r) ? "" : ((is_map(r) || is_array(r)) ? json_stringify(r) : r));')
 TYPE_NAMES = {"int": "int", "float": "float", "string": "string", "empty": "empty", "boolean": "boolean", "bool": "boolean",
               "error": "error", "absent": "absent", "map": "map", "array": "array", "funct": "funct"}
-FAMILIES = ["unary", "index", "pad", "replace", "find", "split", "join", "fmt"]
+FAMILIES = ["unary", "index", "pad", "replace", "find", "split", "join", "fmt", "literal"]
 BATCH = 4000
 LINE = re.compile(r"^(\d+)\|([a-z]+)\|(.*)$", re.S)
 ENV = {"LANG": "en_US.UTF-8"}      # "%_d" takes its separator from LANG; the help text promises commas
@@ -95,10 +96,35 @@ def row_of(fam, c, ab):
     return {"s": ab.text(c["s"]), "t": ab.text(c["t"]), "u": ab.text(c["u"]), "i": c["i"], "j": c["j"], "a": coll}
 
 
-def mlr_case(mlr, f, rows):
+def mlr_case(mlr, f, rows, expr=None):
     body = "".join(json.dumps(r, ensure_ascii=False) + "\n" for r in rows)
-    return {"argv": [mlr, "--ijsonl", "put", "-q", SHOW % EXPR[f]], "stdin": body, "env": ENV,
+    return {"argv": [mlr, "--ijsonl", "put", "-q", SHOW % (expr or EXPR[f])], "stdin": body, "env": ENV,
             "timeout_ms": 60000 + 20 * len(rows), "max_out": 64 << 20}
+
+
+def literal_of(c, ab):
+    """Family "literal": the string is spelled in the DSL text. Returns (expression, row)."""
+    if c["f"] == "literal":
+        return '"%s"' % ab.text(c["s"]), {"s": ""}
+    ch = ab.rep[c["s"][0]]
+    kind, cp = c["t"][0], ord(ch)
+    esc = c["u"][0] if kind == "named" else {"octal": "\\%03o", "hex": "\\x%02x", "u4": "\\u%04x", "U8": "\\U%08x"}[kind] % cp
+    return '"%s" == $s' % esc, {"s": ch}
+
+
+def evaluate_single(mlr, items):
+    """items: [(expression, row)], one process each (a program the lexer rejects must not take other cases with it)."""
+    cases = [mlr_case(mlr, None, [row], expr=e) for e, row in items]
+    res = vlib.run_cases(cases)
+    vlib.confirm_timeouts(cases, res)
+    out = []
+    for r in res:
+        lines = parse_lines(r["stdout"])
+        if r["exit"] == 0 and not r["timed_out"] and 1 in lines:
+            out.append((0, lines[1][0], lines[1][1], ""))
+        else:
+            out.append((-2 if r["timed_out"] else (r["exit"] or 1), "fatal", "", r["stderr"][:400]))
+    return out, len(cases)
 
 
 def parse_lines(stdout):
@@ -176,6 +202,8 @@ def result_of(t, payload, ab):
 def nontrivial(fam, c):
     if fam == "fmt":
         return bool(c["F"]) or c["w"] > 0 or c["v"] != "d" or c["lm"] != ""
+    if c["f"] == "escape":
+        return True
     strings = [c["s"], c["t"], c["u"]] + list(c["a"]) + list(c["ks"])
     multibyte = any(ch in WIDTH_BYTES for s in strings for ch in s)
     n = len(c["s"])
@@ -198,6 +226,10 @@ def key_of(fam, c):
     if c["f"] in ("slice", "substr", "substr0", "substr1"):
         key["j"] = cls(c["j"])
     key["multibyte"] = any(ch in WIDTH_BYTES for s in [c["s"], c["t"], c["u"]] + list(c["a"]) + list(c["ks"]) for ch in s)
+    if c["f"] == "literal":
+        key["max_width"] = max([WIDTH_BYTES.get(ch, 1) for ch in c["s"]] or [0])
+    if c["f"] == "escape":
+        key["esc"] = c["u"][0] if c["t"][0] == "named" else c["t"][0]
     return key
 
 
@@ -241,8 +273,16 @@ def run(tier, seed):
     nproc = 0
     vlib.build_harness("runner", tags="")        # (before the threads below use it)
 
+    exprs = {}
+
     def ev(f):
         idxs = byfn[f]
+        if f in ("literal", "escape"):
+            items = [literal_of(allcases[i][1], ab) for i in idxs]
+            for i, (e, _) in zip(idxs, items):
+                exprs[i] = e
+            res, n = evaluate_single(mlr, items)
+            return f, idxs, [row for _, row in items], res, n
         rows = [row_of(allcases[i][0], allcases[i][1], ab) for i in idxs]
         res, n = evaluate(mlr, f, rows)
         return f, idxs, rows, res, n
@@ -272,9 +312,10 @@ def run(tier, seed):
             key = dict(key_of(fam, c), why="crash")
         else:
             key = key_of(fam, c)
-        V.violation(key, {"expression": EXPR[c["f"]], "row": rows_of[idx], "case": c, "exit": rc, "typeof": t, "result": payload,
+        e = exprs.get(idx) or EXPR[c["f"]]
+        V.violation(key, {"expression": e, "row": rows_of[idx], "case": c, "exit": rc, "typeof": t, "result": payload,
                           "result_characters": obs[idx].get("r", {}).get("s"), "stderr": err,
-                          "replay": "echo '%s' | mlr --ijsonl put -q '%s'" % (json.dumps(rows_of[idx], ensure_ascii=False), SHOW % EXPR[c["f"]])})
+                          "replay": "echo '%s' | mlr --ijsonl put -q '%s'" % (json.dumps(rows_of[idx], ensure_ascii=False), SHOW % e)})
 
     # ---- non-vacuity of the judge: corrupted copies of conforming observations must be reported ------------------------
     badset = {i for i, _ in bad}
@@ -320,7 +361,7 @@ def run(tier, seed):
     perfn = {f: len(v) for f, v in sorted(byfn.items())}
     for i in (i1, i2, i4, len(obs) // 3):
         o = obs[i]
-        cov["samples"].append({"expression": EXPR[o["c"]["f"]], "row": rows_of[i], "typeof": raw[i][1], "result": raw[i][2]})
+        cov["samples"].append({"expression": exprs.get(i) or EXPR[o["c"]["f"]], "row": rows_of[i], "typeof": raw[i][1], "result": raw[i][2]})
     cov.update({
         "states": states, "transitions": transitions, "traces_validated_against_impl": len(obs),
         "evaluations": len(obs), "distinct_nontrivial": len(nt),
@@ -356,6 +397,6 @@ def replay(path):
     if "row" in d and "expression" in d:
         mlr = vlib.build_mlr()
         fn = d["case"]["f"]
-        r = vlib.run_cases([mlr_case(mlr, fn, [d["row"]])])[0]
+        r = vlib.run_cases([mlr_case(mlr, fn, [d["row"]], expr=d["expression"])])[0]
         print("now: exit=%s stdout=%r stderr=%r" % (r["exit"], r["stdout"], r["stderr"][:300]))
     return 0
